@@ -3,6 +3,6 @@ CONSTANTS
   Mut = {"M_chain_canon_right_raw"}
   Tier = 1
   Big = 300
-SPECIFICATION Spec
+SPECIFICATION SpecCarriers
 INVARIANT LawCarrier
 CHECK_DEADLOCK FALSE
